@@ -174,6 +174,31 @@ def c03(ctx, e):
     # nothing delivered after a failed API call unless recorded (covered above through `be`)
 
 
+def c03_parked_on_recorded_retry(ctx, e):
+    """thread-local write-ahead for suspensions: between a strategy's decision to retry and the moment the deciding thread parks
+    (a branch body ending in a timed suspension, or the handler thread ending the invocation PENDING) that thread has handed the
+    RETRY record over (create_checkpoint is synchronous for RETRY: returning from it means accepted; a rejected hand-over raises)."""
+    for r in e.invocations:
+        pending = {}
+        hthread = next((x["th"] for x in r.events if x["ev"] == "HandlerEnter"), None)
+        for x in r.events:
+            th = x.get("th")
+            if x["ev"] in ("StrategyCall", "WaitStrategyCall") and (x.get("retry") if x["ev"] == "StrategyCall" else x.get("cont")):
+                pending[th] = x["path"]
+            elif x["ev"] == "Ckpt" and (x.get("action") == "RETRY" or x.get("rejected")):
+                pending.pop(th, None)
+            elif x["ev"] == "BodyEnd" and th in pending:
+                path = pending.pop(th)
+                if x.get("out") == "tsusp":
+                    ctx.violation("parked-without-retry-record", f"invocation {r.inv}: the branch parked on the retry of {path} without "
+                                  "having handed a RETRY record to the checkpoint queue", scen_of(e))
+                    return
+        if r.outcome == "PENDING" and hthread in pending:
+            ctx.violation("parked-without-retry-record", f"invocation {r.inv} reported PENDING for the retry of {pending[hthread]} without "
+                          "having handed a RETRY record to the checkpoint queue", scen_of(e))
+            return
+
+
 # ---- C04 ---------------------------------------------------------------------------------------------------
 def c04(ctx, e):
     nodes = node_index(e.prog)
